@@ -9,8 +9,8 @@
 /*@unit {'name':'c01_readstates_tables', 'props':['C01','C02'], 'entry':'h_readstates', 'kind':'bounded', 'unwind':6,
   'bound':'(start states, transition cells) in {(1,0),(1,1),(2,2),(2,3)}; numStates <= 8; table bytes arbitrary',
   'claims':'Pass::readStates (table part): reads exactly 2 bytes per start state / transition cell, writes only inside the arrays it allocated, and returns success only if every start state and every transition is < numStates (the PASS_WF facts assumed by c02_run_fsm)'}@*/
-/*@unit {'name':'c01_readclassmap', 'props':['C01','C02'], 'entry':'h_classmap', 'kind':'bounded', 'unwind':8, 'timeout':900,
-  'bound':'class map data of 8 bytes (1 class), 14 bytes (2 classes) and 20 bytes (1 class: room for a lookup class with one pair), version below and above 4.0, all other bytes arbitrary',
+/*@unit {'name':'c01_readclassmap', 'props':['C01','C02'], 'entry':'h_classmap', 'kind':'bounded', 'unwind':9, 'timeout':1200,
+  'bound':'class map data of 8 bytes (1 class), 14 bytes (2 classes) , 20 bytes (1 class: room for a lookup class with one pair) and 24 bytes (2 classes: a linear class followed by a lookup class that may start at max_off), version below and above 4.0, all other bytes arbitrary',
   'claims':'Silf::readClassMap / readClassOffsets: all reads inside [p, p+data_len), writes only inside the two arrays they allocate, and on success CLASSMAP_WF holds for every class (offsets <= max_off, linear offsets monotone, lookup classes o+4 <= max_off, numIDs >= 1, numIDs*2+o+4 <= max_off, even pair distance)'}@*/
 /*@include endian.tc@*/
 typedef struct Error { int _e; } Error;
@@ -81,7 +81,7 @@ void h_classmap(void)
     Silf *s = malloc(sizeof(Silf)); __CPROVER_assume(s);
     s->m_classOffsets = 0; s->m_classData = 0;
     size_t len = nondet_size_t(); bool v4 = nondet_bool(); unsigned nc = nondet_unsigned();
-    __CPROVER_assume((len == 8 && nc == 1) || (len == 14 && nc == 2) || (len == 20 && nc == 1));
+    __CPROVER_assume((len == 8 && nc == 1) || (len == 14 && nc == 2) || (len == 20 && nc == 1) || (len == 24 && nc == 2));
     Error e; e._e = 0;
 #define RUN(K, NC) if (len == (K) && nc == (NC)) { byte *d = malloc(K); __CPROVER_assume(d); d[0] = 0; d[1] = (NC);   /* numClasses fixed per call, everything else arbitrary */ \
         size_t r = Silf_readClassMap(s, d, (K), v4 ? 0x00040000u : 0x00030000u, &e); \
@@ -91,7 +91,7 @@ void h_classmap(void)
                 __CPROVER_assert(o <= mo && o1 <= mo, "readClassMap: class offsets <= max_off"); \
                 if (c < s->m_nLinear) __CPROVER_assert(o <= o1, "readClassMap: linear class offsets monotone"); \
                 else __CPROVER_assert(o + 4 <= mo && s->m_classData[o] >= 1 && (uint32)s->m_classData[o] * 2 + o + 4 <= mo && ((o1 - o) & 1) == 0, "readClassMap: lookup class header and pairs inside the class data"); } } }
-    RUN(8, 1) RUN(14, 2) RUN(20, 1)
+    RUN(8, 1) RUN(14, 2) RUN(20, 1) RUN(24, 2)     /* 24 bytes / 2 classes: the smallest map with a lookup class that does not start at offset 0 (it can start at max_off) */
     CANARY();
 }
 #endif
